@@ -135,7 +135,7 @@ def run_schema(ctx, name, full, ns=""):
                 cases.append((ns + sp, long, form, "", "plain"))
             sp = ctx.rng.choice(case_variants(ctx.rng, form))
             if has_val:
-                for rem in ("/3 ms", "/Some Value_x", "/#"):
+                for rem in ("/3 ms", "/Some Value_x", "/#", "/doi:10.1000/182", "/12:30", "/a/b:c"):
                     cases.append((ns + sp + rem, long, form, rem, "value"))
             else:
                 ext = "/Xyzzy" + str(ctx.rng.randint(0, 9))
